@@ -4,7 +4,7 @@
    - rational values with the law given as look-up tables (outputs of a real notch approximation law).
    Derived recorder columns S_a, S_m, epsilon_a, epsilon_m, R. *)
 From Coq Require Import ZArith QArith Qabs List Bool Lia.
-From PL Require Import Rainflow.Model HCM.Model HCM.Load HCM.Sim HCM.RecThm HCM.Select.
+From PL Require Import Rainflow.Model HCM.Model HCM.Load HCM.Select.
 Import ListNotations.
 Open Scope Z_scope.
 
